@@ -92,6 +92,9 @@ fn tower_text(opener: &str, n: usize) -> String {
         "fn(" => { s = String::from("fn a(x: "); "fn(" }
         "x ->" => { s = String::from("fn a() { case x { "); "x -> case x { " }
         "fn(a) -> " => { s = String::from("fn a(x: "); "fn(a) -> " }
+        "const [" => { s = String::from("pub const c = "); "[" }
+        "const #(" => { s = String::from("const c = "); "#(" }
+        "const A(" => { s = String::from("const c = "); "A(" }
         "A(a: " => { s = String::from("fn a(x) { case x { "); "A(a: " }
         "1 +" | "x |>" | "1 <>" | "a ||" => {
             // left-nested binary chain: operand op operand op ...
